@@ -97,5 +97,18 @@ Section C10.
   Qed.
 End C10.
 
+(* non-vacuity: a family whose cnf answers a two-valued ==-group from the entry of the group spelled in the other order (the
+   situation of the recorded finding value-order-text-only) is reachable; so the theorems apply to it *)
+Definition swap_hit (m : marker) : option marker :=
+  match m with MEqU n [a; b] => Some (MEqU n [b; a]) | _ => None end.
+Lemma swap_hit_ok : hit_ok swap_hit.
+Proof.
+  intros m m' H. destruct m as [| |?|n [|a [|b [|? ?]]]|?|?|?]; try discriminate H. injection H as <-.
+  cbn [marker_eqb]. rewrite str_eqb_refl. unfold set_eqb. cbn. rewrite !str_eqb_refl, !orb_true_r. reflexivity.
+Qed.
+Example C10_runs vmerge vcontains perm :
+  reach vmerge vcontains perm (with_memo (level vmerge vcontains perm 12) (level vmerge vcontains perm 9) (level vmerge vcontains perm 9) swap_hit (fun _ => None)).
+Proof. apply reach_memo; try apply reach_cold; [exact swap_hit_ok | discriminate]. Qed.
+
 Definition C10_all := (C10_reach_sound, C10_meaning, C10_history_independent, step_sound, level_S).
 Redirect "C10.assumptions" Print Assumptions C10_all.
